@@ -331,6 +331,103 @@ struct SeqOut {
     states: std::collections::HashSet<u64>,
 }
 
+/// Run `steps` instructions of a case on the real machine and on REF-ISA in lock-step.
+/// None = agreement (or the run entered supervision territory, which is C05's).
+fn lockstep(case: &Case, steps: usize, mode: Mode) -> Option<(String, String, &'static str)> {
+    let mut m = case.machine();
+                let mut c = case.cpu;
+                let mut mem = case.refmem();
+                let mut latch = false;
+                if !matches!(mach::to_boundary(&mut m, 4), RunEnd::Boundary(_)) {
+                    return Some(("completion".to_string(), "no first boundary".to_string(), "?"));
+                }
+                for step in 0..steps {
+                    let info = isa::step(&mut c, &mut mem, &mut latch);
+                    if c.sp >= 0xF0 || info.sp_values.iter().any(|&s| s >= 0xF0) {
+                        return None; // supervision territory (C05)
+                    }
+                    let end = mach::to_boundary(&mut m, 4096);
+                    let ok_end = match (info.outcome, end) {
+                        (Outcome::Done, RunEnd::Boundary(e)) => {
+                            if mode == Mode::C15 && e != info.words + info.waits {
+                                return Some((
+                                    format!("cycles/{}", info.form),
+                                    format!("step {}: edges expected {} observed {}", step, info.words + info.waits, e),
+                                    info.form,
+                                ));
+                            }
+                            true
+                        }
+                        (Outcome::Stop, RunEnd::Halted(_, State::Stopped)) => true,
+                        (Outcome::ErrorStop, RunEnd::Halted(_, State::ErrorStopped)) => true,
+                        (Outcome::Hang, RunEnd::Timeout) => true,
+                        _ => false,
+                    };
+                    if !ok_end {
+                        return Some((
+                            format!("isa/{}/completion", info.form),
+                            format!("step {}: REF outcome {:?}, machine {:?}", step, info.outcome, end),
+                            info.form,
+                        ));
+                    }
+                    if mode == Mode::C01 {
+                        if let Some((field, what)) = sw::compare(&m, &c, &mem) {
+                            return Some((format!("isa/{}/{}", info.form, field), format!("step {}: {}", step, what), info.form));
+                        }
+                    }
+                    if info.outcome != Outcome::Done {
+                        break;
+                    }
+                }
+                None
+}
+
+/// G5: code executing out of the I/O page. PC = 0xFC: every pair of bytes in the input registers
+/// FC/FD is executed as an instruction (FE/FF hold INC R2 / STOP, then the PC wraps to 0);
+/// PC = 0xF0: every byte on the board's digital input port is executed as an opcode.
+fn io_code(mode: Mode, full: bool) -> (Stats, u64) {
+    let seconds: Vec<u8> = if full { (0..=255).collect() } else { vec![0x00, 0x01, 0x02, 0x10, 0x12, 0x1A, 0x1F, 0x2E, 0x40, 0x44, 0x5F, 0x6A, 0x7F, 0x80, 0xEF, 0xF0, 0xFC, 0xFF] };
+    let n = 256 * seconds.len() + 256;
+    let outs = mc::par_ranges(n, 256, |range| {
+        let mut st = Stats::default();
+        let mut instr = 0u64;
+        for idx in range {
+            let (case, group) = if idx < 256 * seconds.len() {
+                let (a, b) = ((idx / seconds.len()) as u8, seconds[idx % seconds.len()]);
+                let mut ram = sw::pattern(1);
+                sw::place(&mut ram, 0, &[0x02, 0x02, 0x01]);
+                (Case { cpu: Cpu { r: [0x21, 0x9C, 0xE0], pc: 0xFC, fr: 0x05, sp: 0xD0 }, scratch: (0, 0), ram, inputs: [a, b, 0x46, 0x01], di1: 0x33 }, format!("G5 inputs FC={:#04x} FD={:#04x}", a, b))
+            } else {
+                let d = (idx - 256 * seconds.len()) as u8;
+                let mut ram = sw::pattern(2);
+                sw::place(&mut ram, 0, &[0x02, 0x02, 0x01]);
+                (Case { cpu: Cpu { r: [0x21, 0x9C, 0xE0], pc: 0xF0, fr: 0x02, sp: 0xD0 }, scratch: (0, 0), ram, inputs: [0x02, 0x02, 0x02, 0x01], di1: d }, format!("G5 board port DI1={:#04x}", d))
+            };
+            let res = mc::catch(|| lockstep(&case, 4, mode));
+            instr += 4;
+            st.evals += 1;
+            match res {
+                Ok(None) => st.changed += 1,
+                Ok(Some((key, what, _))) => {
+                    let is_cycle = key.starts_with("cycles/");
+                    if (mode == Mode::C15) == is_cycle {
+                        st.bad_case(format!("iocode/{}", key), &case, format!("[{}] {}", group, what));
+                    }
+                }
+                Err(p) => st.bad_case(format!("panic/{}", p.file()), &case, format!("[{}] panic at {}: {}", group, p.site(), p.msg)),
+            }
+        }
+        (st, instr)
+    });
+    let mut st = Stats::default();
+    let mut instr = 0;
+    for (o, i) in outs {
+        st.merge(o);
+        instr += i;
+    }
+    (st, instr)
+}
+
 /// G4: all instruction sequences up to `depth` from each start state, lock-step with REF-ISA.
 fn sequences(mode: Mode, depth: usize) -> (Stats, u64, u64, usize, Vec<String>) {
     let alpha = alphabet();
@@ -375,54 +472,7 @@ fn sequences(mode: Mode, depth: usize) -> (Stats, u64, u64, usize, Vec<String>) 
             }
             let group = format!("G4 start={} seq={:?}", s, names);
             // lock-step
-            let res = mc::catch(|| {
-                let mut m = case.machine();
-                let mut c = case.cpu;
-                let mut mem = case.refmem();
-                let mut latch = false;
-                if !matches!(mach::to_boundary(&mut m, 4), RunEnd::Boundary(_)) {
-                    return Some(("completion".to_string(), "no first boundary".to_string(), "?"));
-                }
-                for step in 0..(depth + 2) {
-                    let info = isa::step(&mut c, &mut mem, &mut latch);
-                    if c.sp >= 0xF0 || info.sp_values.iter().any(|&s| s >= 0xF0) {
-                        return None; // supervision territory (C05)
-                    }
-                    let end = mach::to_boundary(&mut m, 4096);
-                    let ok_end = match (info.outcome, end) {
-                        (Outcome::Done, RunEnd::Boundary(e)) => {
-                            if mode == Mode::C15 && e != info.words + info.waits {
-                                return Some((
-                                    format!("cycles/{}", info.form),
-                                    format!("step {}: edges expected {} observed {}", step, info.words + info.waits, e),
-                                    info.form,
-                                ));
-                            }
-                            true
-                        }
-                        (Outcome::Stop, RunEnd::Halted(_, State::Stopped)) => true,
-                        (Outcome::ErrorStop, RunEnd::Halted(_, State::ErrorStopped)) => true,
-                        (Outcome::Hang, RunEnd::Timeout) => true,
-                        _ => false,
-                    };
-                    if !ok_end {
-                        return Some((
-                            format!("isa/{}/completion", info.form),
-                            format!("step {}: REF outcome {:?}, machine {:?}", step, info.outcome, end),
-                            info.form,
-                        ));
-                    }
-                    if mode == Mode::C01 {
-                        if let Some((field, what)) = sw::compare(&m, &c, &mem) {
-                            return Some((format!("isa/{}/{}", info.form, field), format!("step {}: {}", step, what), info.form));
-                        }
-                    }
-                    if info.outcome != Outcome::Done {
-                        break;
-                    }
-                }
-                None
-            });
+            let res = mc::catch(|| lockstep(&case, depth + 2, mode));
             out.instr += depth as u64 + 2;
             out.st.evals += 1;
             match res {
@@ -521,8 +571,13 @@ pub fn run(mode: Mode) {
     let depth = if quick { 2 } else { 3 };
     let (sst, instr, _nst, nseq, samples) = sequences(mode, depth);
     let per_instr_evals = st.evals;
-    let seq_evals = sst.evals;
+    let (ist, iinstr) = io_code(mode, !quick);
+    let io_evals = ist.evals;
+    let seq_evals = sst.evals + io_evals;
+    let instr = instr + iinstr;
     st.merge(sst);
+    st.merge(ist);
+    ctx.set("io_page_code_runs", io_evals);
     for (key, (n, cases)) in &st.bad {
         for (line, what) in cases.iter().take(3) {
             ctx.violation(key.clone(), format!("{} ({} cases in class)", what, n), line.clone());
@@ -534,7 +589,7 @@ pub fn run(mode: Mode) {
     ctx.set("states", per_instr_evals - skipped + seq_evals);
     ctx.set("transitions", per_instr_evals - skipped + instr);
     ctx.set("traces_validated_against_impl", st.evals - skipped);
-    ctx.set("rule", "per-instruction: every point of the products G1 (reg-reg ALU ops x 16 register pairs x value pairs x carry-in, PC operands by placement), G2 (every other one-byte opcode x 256 values x 16 flags x upper FR bits x 4 SPs), G3 (16 first bytes x second bytes 0x00-0x7F x pointer-set^2 x placements x memory variants x flags); G4: every sequence of the alphabet up to the depth from 3 start states, compared after every instruction. A case is non-trivial when the instruction changed more than the PC (sequences: ran to completion in lock-step).");
+    ctx.set("rule", "per-instruction: every point of the products G1 (reg-reg ALU ops x 16 register pairs x value pairs x carry-in, PC operands by placement), G2 (every other one-byte opcode x 256 values x 16 flags x upper FR bits x 4 SPs), G3 (16 first bytes x second bytes 0x00-0x7F x pointer-set^2 x placements x memory variants x flags); G4: every sequence of the alphabet up to the depth from 3 start states, compared after every instruction; G5: code executing out of the I/O page (every byte pair in the input registers FC/FD executed at PC=0xFC, every byte on the board input port executed at PC=0xF0), four instructions each. A case is non-trivial when the instruction changed more than the PC (sequences: ran to completion in lock-step).");
     ctx.set("exhaustive", true);
     ctx.set("bounds", format!("tier={}; G1 value pairs: {}; sequence depth {} ({} sequences, {} instructions)", if quick { "quick" } else { "thorough" }, if quick { "boundary set^2 + complete 65536x2 tables for MUL and one rotated op" } else { "all 65536 pairs x carry-in for all 8 ops" }, depth, nseq, instr));
     let mut sk = Json::obj();
